@@ -100,6 +100,7 @@ def run(repo, chk):
                    'constant/0 is a compile error (it would fault at run time); x/0 with run-time x must be left to the run-time check', OPERATORS)
 
     _effects_kept(chk, ns, span)
+    _generator_constant_arms(repo, chk)
 
     # ---------------- W2 literal casts ---------------------------------------------------
     bad = []
@@ -169,6 +170,48 @@ def run(repo, chk):
                '`40000 > 0` folds to true but is false at run time, `(32767+1)/2` folds to 16384 but is -16384 at run time',
                OPERATORS)
     chk.not_decided = ['agreement of folded and run-time values in general (needs the VM semantics)']
+
+
+def _generator_constant_arms(repo, chk):
+    """F8: where the generator itself evaluates a cast of a compile-time value (an immediate: a literal, or the length of
+    an array whose size it knows), it must compute what the run-time instructions compute: int->bool is `!= 0`,
+    int->byte is the low byte, byte->int the value itself, bool->int 0/1.  The arms are interpreted on immediates."""
+    chk.rule('C14.F8', 'constant arms of the cast lowerings: for an immediate operand the generator computes v != 0 (to bool), '
+                       'v mod 256 (to byte), v (to int) - exactly what its run-time instructions compute')
+    from ..genfacts import GenFacts, GEN
+    gf = GenFacts(repo)
+    ns = gf.module_ns()
+    it = repo.__dict__['_gen_ns']['it']
+    lex = it.load('hidc/lexer/__init__.py')
+    span = lex['Span'](lex['Cursor'](0, 0), lex['Cursor'](0, 1))
+    CG, asm, A = ns['CodeGen'], ns['asm'], ns['ast']
+    n = 0
+    for ws in (2, 3):
+        M = 1 << (8 * ws)
+        for cast, ref in (('IntToBool', lambda v: int(v % M != 0)), ('IntToByte', lambda v: v % 256)):
+            bad = None
+            for v in (0, 1, 2, 3, 4, 6, 127, 128, 255, 256, 257, 510, 512, 32768, 65535, -1, -2, -256):
+                try:
+                    g = object.__new__(CG)
+                    g.word_size = ws
+                    g.stack = ns['StackPoint']()
+                    g.allocated_arrays = []
+                    g.checkpoints = ns['Tracker']()
+                    g.unchecked = False
+                    res = g.eval_expr(asm.LabelRef('r0'), A[cast](A.IntValue(v, span)) if isinstance(A, dict) else getattr(A, cast)(A.IntValue(v, span)), False)
+                    val = res.value.value
+                except Exception as e:      # noqa: BLE001
+                    bad = bad or f'{cast} of {v}: {type(e).__name__}: {e}'
+                    n += 1
+                    continue
+                n += 1
+                if res.items or type(val).__name__ != 'IntLiteral' or (val.data - ref(v)) % M != 0 and val.data != ref(v):
+                    bad = bad or f'{cast} of the immediate {v} gives {getattr(val, "data", val)!r} (instructions emitted: {len(res.items)}); run time gives {ref(v)}'
+                    continue
+                if cast == 'IntToBool' and val.data not in (0, 1):
+                    bad = bad or f'IntToBool of {v} gives {val.data}: booleans are strictly 0 / 1'
+            chk.expect(bad is None, 'C14.F8', f'eval_expr[{cast}] on an immediate, w={ws}', bad or '', GEN)
+    chk.floor('constant cast evaluations', n, 60)
 
 
 def _contains(obj, target, depth=0):
